@@ -1,5 +1,6 @@
 //! Which stages make up each property's check, and how many cases each tier runs.
 
+use super::asyncp::*;
 use super::more::*;
 use super::solve::*;
 use crate::gen::Params;
@@ -77,6 +78,21 @@ pub fn stages(id: &str) -> Vec<Stage> {
         "C09" => vec![
             st(C09 { params: Params::conflict_heavy().with_soft(2, 100), stage: "general", conflict_free: false }, 15_000, 600_000, Release),
             st(C09 { params: Params::default(), stage: "conflict-free", conflict_free: true }, 15_000, 600_000, Release),
+        ],
+        "C10" => vec![
+            st(C10 { params: Params::conflict_heavy().with_soft(2, 100), stage: "sampled", exhaustive: false, max_schedules: 0 }, 4_000, 150_000, Release),
+            st(C10 { params: Params { min_pkgs: 2, max_pkgs: 4, max_cands: 3, max_reqs: 2, min_root_reqs: 1, max_root_reqs: 2, ..Params::conflict_heavy() }, stage: "exhaustive", exhaustive: true, max_schedules: 3000 }, 300, 10_000, Release),
+        ],
+        "C11" => vec![
+            st(C11 { params: Params::fanout(), stage: "main" }, 15_000, 500_000, Release),
+        ],
+        "C12" => vec![
+            st(C12 { params: Params::conflict_heavy().with_soft(2, 100), stage: "main", max_indices: 48 }, 1_500, 0, Release),
+            st(C12 { params: Params::conflict_heavy().with_soft(2, 100), stage: "all-indices", max_indices: 0 }, 0, 40_000, Release),
+        ],
+        "C13" => vec![
+            st(C13 { params: Params::conflict_heavy().with_soft(2, 100), stage: "main" }, 10_000, 400_000, Release),
+            st(C13 { params: Params::default().hint_heavy().with_soft(2, 100), stage: "rich" }, 5_000, 200_000, Release),
         ],
         "C14" => vec![
             st(C14 { params: Params::conflict_heavy().with_soft(5, 200), stage: "general", conflict_free: false }, 15_000, 600_000, Release),
